@@ -8,8 +8,15 @@ def decode(string):
 
 validate_encoded = decode
 
-def validate_decoded(alignment):
-  alignment.validate()
+def validate_decoded(obj):
+  if isinstance(obj, gfapy.CIGAR) or isinstance(obj, gfapy.Trace) or \
+      isinstance(obj, gfapy.Placeholder):
+    obj.validate()
+  else:
+    raise gfapy.TypeError(
+      "the class {} is incompatible with the datatype\n"
+      .format(obj.__class__.__name__)+
+      "(accepted classes: CIGAR, Trace, AlignmentPlaceholder)")
 
 def unsafe_encode(obj):
   return str(obj)
